@@ -440,7 +440,9 @@ def main():
           ("detrend", None), ("differentiate", True), ("orient_to_degrees_from_north", None), ("ignore_dissimilar_time_step_warning", True),
           ("handle_dissimilar_time_steps_by", "keeping_smallest_time_step"), ("method_to_combine_horizontals", "squared_average"),
           # the name the user chose is content: synonyms of a technique are different attribute values
-          ("method_to_combine_horizontals", "quadratic_mean"), ("method_to_combine_horizontals", "vector_summation")]
+          ("method_to_combine_horizontals", "quadratic_mean"), ("method_to_combine_horizontals", "vector_summation"),
+          # the version a settings file was made with is an attribute like any other: it is what the file says, not what is installed
+          ("hvsrpy_version", "2.0.0rc3")]
     k_ = 0
     for c in CLASSES:
         params = inspect.signature(getattr(h, c).__init__).parameters
@@ -448,7 +450,8 @@ def main():
             if attr not in params or (attr == "method_to_combine_horizontals" and c != "HvsrTraditionalProcessingSettings"):
                 continue        # (the sub-classes fix the method; passing another one makes an object of a different kind)
             k_ += 1
-            if run.quick and attr not in ("azimuths_in_degrees", "azimuth_in_degrees", "ppth_percentile_for_rotdpp_computation", "method_to_combine_horizontals") and (k_ + run.seed) % 3:
+            if run.quick and attr not in ("azimuths_in_degrees", "azimuth_in_degrees", "ppth_percentile_for_rotdpp_computation", "method_to_combine_horizontals") and \
+                    not (attr == "hvsrpy_version" and c in ("HvsrPreProcessingSettings", "HvsrAzimuthalProcessingSettings")) and (k_ + run.seed) % 3:
                 continue
             d = Driver(h, rng, wd, recs)
             d.pristine()
